@@ -12,6 +12,8 @@ def device(rng, **kw):
         d["chunk"] = rng.randrange(1, 10 ** 6)
     if rng.random() < 0.15:
         d["restrict_puts"] = {"p": rng.choice([0.3, 1.0]), "seed": rng.randrange(10 ** 6)}       # some PUTs are answered with @RESTRICTED
+    if rng.random() < 0.2:
+        d["mute"] = {"p": rng.choice([0.2, 0.6, 1.0]), "seed": rng.randrange(10 ** 6)}               # some commands (probes too) get no reply at all
     d.update(kw)
     return d
 
